@@ -8,6 +8,11 @@ to the file produced by read -> preprocess -> process -> write for that file
 alone in a fresh process with freshly loaded settings.  A few batches are also
 run through the real multiprocessing.Pool (free-running) and must match one of
 the enumerated schedules.
+
+Settings files: both kinds of preprocessing settings the command line accepts
+(HVSR-style and PSD-style; the latter writes an FFT length resolved from the whole
+recording into the PREprocessing settings object and uses it to differentiate)
+and the processing settings kinds, with and without nested fft_settings dicts.
 """
 import hashlib
 import itertools
@@ -48,6 +53,21 @@ PRE = {
     "pre_short": dict(window_length_in_seconds=2.5, detrend="linear",
                       filter_corner_frequencies_in_hz=[None, None], orient_to_degrees_from_north=0.0),
 }
+# PSD-style preprocessing settings files are accepted by the command line as well.  psd_preprocess() WRITES
+# the FFT length resolved from the whole recording into its settings object (prepare_fft_settings) and
+# uses it when `differentiate` is set: state in the PREprocessing settings object shared by a chunk.
+# (An instrument transfer function cannot be stored in a settings file, so it is not reachable here.)
+PRE_PSD = {
+    "pre_psd_diff": dict(window_length_in_seconds=80.0, detrend="linear", differentiate=True,
+                         filter_corner_frequencies_in_hz=[None, None], orient_to_degrees_from_north=0.0),
+    # explicit (nested, mutable) fft_settings dict in the preprocessing settings + filter + rotation
+    "pre_psd_diff_fftn": dict(window_length_in_seconds=80.0, detrend="constant", differentiate=True,
+                              filter_corner_frequencies_in_hz=[0.3, 20.0], orient_to_degrees_from_north=30.0,
+                              fft_settings={"n": 1024}),
+    # the resolved length is written into the settings but never used
+    "pre_psd_nodiff": dict(window_length_in_seconds=80.0, detrend="linear", differentiate=False,
+                           filter_corner_frequencies_in_hz=[None, None], orient_to_degrees_from_north=0.0),
+}
 PROC = {
     "trad": ("HvsrTraditionalProcessingSettings", dict(method_to_combine_horizontals="geometric_mean")),
     "azi": ("HvsrAzimuthalProcessingSettings", dict(azimuths_in_degrees=[0.0, 60.0, 120.0])),
@@ -64,7 +84,8 @@ _CONFORMANCE = []   # filled by warm(), reported by finalize()
 
 
 def _data_dir():
-    src = json.dumps([FILES, FCS, PRE, {k: list(v) for k, v in PROC.items()}], sort_keys=True, default=str)
+    src = json.dumps([FILES, FCS, PRE, {k: list(v) for k, v in PROC.items()}, PRE_PSD], sort_keys=True,
+                     default=str)
     tag = hashlib.sha256(src.encode()).hexdigest()[:12]
     return os.path.join(VERIF, ".cache", "c19", tag)
 
@@ -94,6 +115,10 @@ def _make_inputs(d):
         p = os.path.join(d, name + ".json")
         if not os.path.exists(p):
             hvsrpy.HvsrPreProcessingSettings(**kw).save(p)
+    for name, kw in PRE_PSD.items():
+        p = os.path.join(d, name + ".json")
+        if not os.path.exists(p):
+            hvsrpy.settings.PsdPreProcessingSettings(**kw).save(p)
     for name, (cls, kw) in PROC.items():
         p = os.path.join(d, name + ".json")
         if not os.path.exists(p):
@@ -141,10 +166,33 @@ def _reference_job(d, stem, pre, proc, dist=None):
     return job
 
 
+def _control_job(d):
+    """Non-vacuity control: A100 alone with the PSD-style differentiating settings, but with the FFT length
+    its settings object would inherit from B500 (131072).  Must differ from the reference."""
+    def job():
+        import hvsrpy
+        from hvsrpy.object_io import read_settings_object_from_file
+        out = os.path.join(d, "ref", "control")
+        os.makedirs(out, exist_ok=True)
+        ps = read_settings_object_from_file(os.path.join(d, "pre_psd_diff.json"))
+        ps.fft_settings = dict(n=_pow2(_npts("B500")))
+        pr = read_settings_object_from_file(os.path.join(d, "trad.json"))
+        recs = hvsrpy.read([[os.path.join(d, "A100.mseed")]])
+        recs = hvsrpy.preprocess(recs, ps)
+        hv = hvsrpy.process(recs, pr)
+        tmp = os.path.join(out, f"A100.{os.getpid()}.tmp")
+        hvsrpy.write_hvsr_object_to_file(hv, tmp, distribution_mc="lognormal", distribution_fn="lognormal")
+        os.replace(tmp, os.path.join(out, "A100.csv"))
+    return job
+
+
 def _combos(tier):
     if tier == "quick":
-        return [("pre_plain", "trad"), ("pre_filt", "azi"), ("pre_plain", "trad_fftn")]
-    return [(a, b) for a in PRE for b in PROC]
+        return [("pre_plain", "trad"), ("pre_filt", "azi"), ("pre_plain", "trad_fftn"),
+                ("pre_psd_diff", "trad"), ("pre_psd_diff_fftn", "trad")]
+    return ([(a, b) for a in PRE for b in PROC] +
+            [("pre_psd_diff", b) for b in PROC] +
+            [("pre_psd_diff_fftn", "trad"), ("pre_psd_nodiff", "trad")])
 
 
 def _stems(tier):
@@ -180,6 +228,7 @@ def warm(tier="quick"):
             pids.append(_in_child(_reference_job(d, stem, pre, proc, dist)))
             if len(pids) >= 12:
                 os.waitpid(pids.pop(0), 0)
+    pids.append(_in_child(_control_job(d)))
     for p in pids:
         os.waitpid(p, 0)
     _conformance(tier)
@@ -278,6 +327,18 @@ def _first_diff(a, b):
     return dict(line=min(len(la), len(lb)) + 1, reference=f"{len(la)} lines", cli=f"{len(lb)} lines")
 
 
+def _npts(stem):
+    fs, secs, _ = FILES[stem]
+    return int(fs * secs) + 1
+
+
+def _pow2(n):
+    p = 2 ** 15
+    while p <= n:
+        p *= 2
+    return p
+
+
 def _classify(root, chunks, stem):
     """Input class of a differing file, for the finding key: what precedes it in its chunk."""
     for ch in chunks:
@@ -285,10 +346,16 @@ def _classify(root, chunks, stem):
         if stem in stems:
             before = stems[:stems.index(stem)]
             if not before:
-                return "first-in-chunk"
+                return ("psd-preprocessing-settings:first-in-chunk" if root["pre"] in PRE_PSD else
+                        "first-in-chunk")
             fs = FILES[stem][0]
             if stem in HI:
                 return "after-other-file-in-same-chunk"
+            if root["pre"] in PRE_PSD:
+                # PSD-style preprocessing resolves an FFT length from the WHOLE recording
+                longer = [b for b in before if _pow2(_npts(b)) > _pow2(_npts(stem))]
+                return ("psd-preprocessing-settings:after-longer-recording-in-same-chunk" if longer else
+                        "psd-preprocessing-settings:after-other-file-in-same-chunk")
             longer = [b for b in before if FILES[b][0] * 80 + 1 > 32768 >= fs * 80 + 1]
             return "after-file-needing-longer-fft-in-same-chunk" if longer else "after-other-file-in-same-chunk"
     return "not-in-any-chunk"
@@ -316,6 +383,15 @@ def run_root(root, ctx, tier):
                           explanation="the command line raised for this schedule")
             continue
         ctx.count("validated")
+        if root["pre"] in PRE_PSD:
+            ctx.count("psd_preprocessing_schedules")
+            if PRE_PSD[root["pre"]].get("differentiate"):
+                for ch in chunks:
+                    st = [os.path.splitext(os.path.basename(t[0]))[0] for t in ch]
+                    if any(_pow2(_npts(a)) > _pow2(_npts(b)) for i, b in enumerate(st) for a in st[:i]):
+                        ctx.count("psd_differentiate_longer_recording_first_in_chunk")
+                    if any(_pow2(_npts(a)) < _pow2(_npts(b)) for i, b in enumerate(st) for a in st[:i]):
+                        ctx.count("psd_differentiate_shorter_recording_first_in_chunk")
         # independence: files written by different chunks/workers are disjoint
         owners = {}
         for ci, (w, files) in by_chunk.items():
@@ -437,7 +513,42 @@ def _conformance(tier):
         _CONFORMANCE.append(res)
 
 
+NON_VACUITY = ["psd_preprocessing_schedules", "psd_differentiate_longer_recording_first_in_chunk",
+               "psd_differentiate_shorter_recording_first_in_chunk"]
+
+
 def finalize(ctx, tier):
+    if ctx.counters.get("roots", 0) >= len(roots(tier, 0)):      # complete run (not a replay)
+        for name in NON_VACUITY:
+            if not ctx.counters.get(name, 0):
+                ctx.violation("C19:harness:vacuous:" + name, dict(part="finalize"), observed=dict(ctx.counters),
+                              explanation=f"no executed schedule exercised '{name}'")
+        # `differentiate` must be visible in the reference output, or the PSD-style settings add nothing
+        d = _DATA or _data_dir()
+        try:
+            same = _ref_bytes(d, "A100", "pre_psd_diff", "trad") == _ref_bytes(d, "A100", "pre_plain", "trad")
+        except OSError as e:
+            same = f"{type(e).__name__}: {e}"
+        if same is not False:
+            ctx.violation("C19:harness:vacuous:psd-differentiate-reference-equals-plain-reference",
+                          dict(part="finalize"), observed=same,
+                          explanation="the reference CSV with PSD-style differentiating preprocessing settings does "
+                                      "not differ from the one with plain settings")
+        else:
+            ctx.count("psd_reference_differs_from_plain")
+        # ... and the FFT length left in a shared preprocessing settings object must be visible in the CSV
+        try:
+            with open(os.path.join(d, "ref", "control", "A100.csv"), "rb") as f:
+                same = f.read() == _ref_bytes(d, "A100", "pre_psd_diff", "trad")
+        except OSError as e:
+            same = f"{type(e).__name__}: {e}"
+        if same is not False:
+            ctx.violation("C19:harness:vacuous:psd-differentiate-fft-length-not-visible", dict(part="finalize"),
+                          observed=same,
+                          explanation="A100 differentiated with the FFT length of B500 gives the same CSV as with "
+                                      "its own: an inherited length could not be seen")
+        else:
+            ctx.count("psd_inherited_fft_length_visible")
     for res in _CONFORMANCE:
         ctx.count("real_pool_runs")
         if res.get("error"):
@@ -510,9 +621,19 @@ def describe(tier):
              "states = schedules, transitions = chunk executions; a root is non-trivial/distinct by "
              "(batch, nproc, cpu, settings)",
         bounds=dict(files="A100,B500,D050 (quick) + C100 (thorough)", batch_length="<=3 quick, <=4 thorough",
-                    nproc="1..3,+omitted(cpu=2) quick; 1..5,+omitted(cpu=2,16) thorough"),
+                    nproc="1..3,+omitted(cpu=2) quick; 1..5,+omitted(cpu=2,16) thorough",
+                    settings="quick: " + ", ".join("+".join(c) for c in _combos("quick")) +
+                             "; thorough: every HVSR-style preprocessing x every processing settings file, "
+                             "PSD-style preprocessing with differentiate x every processing settings file, "
+                             "PSD-style with a nested fft_settings dict x trad, PSD-style without "
+                             "differentiate x trad",
+                    preprocessing_kinds="both kinds read_settings_object_from_file accepts: 'hvsr' and 'psd' "
+                                        "(B500's whole recording, 85001 samples, resolves a 131072-point FFT "
+                                        "for the PSD-style differentiation, every other file 32768)"),
         exhaustive=True,
         assumptions=["interleavings between workers are reduced by the checked independence argument (disjoint "
                      "output files), not enumerated",
                      "fork start method; input files have distinct stems",
-                     "miniSEED input written/read by obspy"])
+                     "miniSEED input written/read by obspy",
+                     "PSD-style preprocessing settings without an instrument transfer function (it cannot be "
+                     "stored in a settings file, so the command line cannot receive one)"])
